@@ -29,11 +29,15 @@ type User struct {
 	Tags  []string          `json:"tags,omitempty"`
 	Attrs map[string]string `json:"attrs,omitempty"`
 }
-type Product struct {
+
+// Product is an instantiated generic type: its default entity type name is spelled the way Go
+// spells it, with brackets ("c18.ProductOf[int]").
+type ProductOf[T any] struct {
 	SKU   string  `json:"sku"`
 	Price float64 `json:"price"`
-	Stock *int    `json:"stock,omitempty"`
+	Stock *T      `json:"stock,omitempty"`
 }
+type Product = ProductOf[int]
 type Order struct {
 	Total int               `json:"total"`
 	Lines map[string]int    `json:"lines,omitempty"`
